@@ -4,6 +4,9 @@
 
 package gi
 
+// C03, package-wide (thorough tier): functions that append text to a byte buffer keep what it held.
+//@ every-function gi append-only
+
 // C17, package-wide: a function that takes a sync lock itself has released it
 // again on every normal return path (directly or through a deferred call).
 //@ every-function gi lock-balance
